@@ -5,6 +5,7 @@ from concurrent.futures import ThreadPoolExecutor
 from . import build
 
 NWORK = int(os.environ.get("VERIF_WORKERS", "16"))
+MAX_UNKNOWN_DEATHS = int(os.environ.get("VERIF_MAX_UNKNOWN_DEATHS", "24"))
 
 
 def empty_result():
@@ -45,6 +46,26 @@ def classify_stderr(text, rc):
     return "exit:%s" % rc
 
 
+def pg_cpu_seconds(pgid):
+    """CPU seconds (user+system) consumed so far by the live processes of a process group."""
+    tck = os.sysconf("SC_CLK_TCK")
+    tot = 0
+    for d in os.listdir("/proc"):
+        if not d.isdigit():
+            continue
+        try:
+            st = open("/proc/%s/stat" % d).read()
+        except OSError:
+            continue
+        f = st[st.rfind(")") + 2:].split()
+        try:
+            if int(f[2]) == pgid:
+                tot += int(f[11]) + int(f[12])
+        except (ValueError, IndexError):
+            pass
+    return tot / float(tck)
+
+
 def read_marker(path):
     try:
         raw = open(path, "rb").read().decode("utf-8", "replace")
@@ -75,7 +96,7 @@ def stack_key(text):
 
 class FamilyRun:
     def __init__(self, binp, family, seed, tier, mode, ncases, workdir, hang_kinds=False, per_case_timeout=20.0,
-                 base_timeout=120.0, env_extra=None, samples=2, wrapper=None):
+                 base_timeout=120.0, env_extra=None, samples=2, wrapper=None, is_known=None):
         self.binp, self.family, self.seed, self.tier, self.mode = binp, family, seed, tier, mode
         self.n = ncases
         self.workdir = workdir
@@ -86,22 +107,49 @@ class FamilyRun:
         self.samples = samples
         self.wrapper = wrapper or []
         self.lock = threading.Lock()
+        self.tls = threading.local()
+        self.hangs = 0          # reproduced hangs seen in this family run (all chunks)
+        # worker deaths / hangs that are NOT listed known findings; every one costs a restart (and up to two watchdog
+        # budgets), so the family is cut short once their number has settled the verdict many times over
+        self.is_known = is_known or (lambda v: False)
+        self.unknown_deaths = 0
+        self.cut_short = False
         self.res = empty_result()
 
-    def _invoke(self, args, errpath, timeout):
+    def _invoke(self, args, errpath, timeout, marker=None, stall=None):
+        """returns (rc, timed_out). With marker/stall: the run is also ended when the marker file (rewritten by the
+        harness at every case / operation start) has not changed for `stall` seconds. self.last_cpu (per thread) holds
+        the CPU seconds the process group had consumed when it was killed."""
         with open(errpath, "wb") as ef:
             p = subprocess.Popen(self.wrapper + [self.binp] + args, stdout=subprocess.DEVNULL, stderr=ef, env=self.env,
                                  start_new_session=True)
-            try:
-                rc = p.wait(timeout=timeout)
-                return rc, False
-            except subprocess.TimeoutExpired:
+            t0 = time.time()
+            while True:
                 try:
-                    os.killpg(p.pid, signal.SIGKILL)
-                except OSError:
-                    pass
-                p.wait()
-                return None, True
+                    rc = p.wait(timeout=2.0 if (marker and stall) else timeout)
+                    return rc, False
+                except subprocess.TimeoutExpired:
+                    now = time.time()
+                    expired = now - t0 >= timeout
+                    if not expired and marker and stall:
+                        try:
+                            expired = now - max(os.path.getmtime(marker), t0) >= stall
+                        except OSError:
+                            expired = now - t0 >= stall
+                    if not expired:
+                        continue
+                    self.tls.cpu = pg_cpu_seconds(p.pid)
+                    try:
+                        os.killpg(p.pid, signal.SIGKILL)
+                    except OSError:
+                        pass
+                    p.wait()
+                    return None, True
+
+    def _note_death(self, v):
+        if not self.is_known(v):
+            with self.lock:
+                self.unknown_deaths += 1
 
     def _run_chunk(self, idx, a, b):
         out = os.path.join(self.workdir, "%s.%d.jsonl" % (self.family, idx))
@@ -111,24 +159,41 @@ class FamilyRun:
         cur = a
         nsamp = self.samples if idx == 0 else 0
         while cur < b:
+            if self.unknown_deaths >= MAX_UNKNOWN_DEATHS:
+                with self.lock:
+                    if not self.cut_short:
+                        self.cut_short = True
+                        self.res["counters"]["family_cut_short_after_unlisted_worker_deaths"] = 1
+                break
             for f in (marker, marker + ".sum"):
                 if os.path.exists(f):
                     os.remove(f)
             args = ["--family", self.family, "--seed", str(self.seed), "--tier", self.tier, "--from", str(cur),
                     "--to", str(b), "--out", out, "--marker", marker, "--samples", str(nsamp)]
             timeout = self.base + self.pct * (b - cur)
-            rc, timed_out = self._invoke(args, err, timeout)
+            # one case / operation may stall for `base` seconds; once three hangs were reproduced in this family the
+            # verdict no longer depends on further ones, so they are cut short and not re-run
+            many = self.hangs >= 3
+            rc, timed_out = self._invoke(args, err, timeout, marker=marker, stall=(30.0 if many else self.base))
             if rc == 0:
                 break
             k, op, tags = read_marker(marker)
             errtext = open(err, "rb").read().decode("utf-8", "replace")
             # cases the killed invocation had completed before its last partial-summary flush
+            flushed = 0
             try:
                 ps = json.load(open(marker + ".sum"))
                 merge(local, dict(cases=ps["cases"], events=ps["events"], trivial=ps["trivial"], sigs=ps["sigs"],
                                   ops=ps["ops"], counters=ps["counters"]))
+                flushed = ps["cases"]
             except (OSError, ValueError, KeyError):
                 pass
+            if k is not None and cur <= k < b:
+                # cases run in index order: cur..k-1 were completed and k was in flight; those completed after the last
+                # summary flush (and k itself) are counted as executed, their events / classes are lost
+                extra = max(0, (k - cur) - flushed) + 1
+                local["cases"] += extra
+                local["counters"]["cases_counted_without_event_summary"] = local["counters"].get("cases_counted_without_event_summary", 0) + extra
             if rc == 2 and (k is None):
                 local["harness_errors"].append("harness exit 2: " + tail(errtext, 10))
                 break
@@ -143,16 +208,30 @@ class FamilyRun:
                 local["harness_errors"].append("worker died outside a case rc=%s: %s" % (rc, tail(errtext, 15)))
                 break
             local["crashes"] += 1
-            if timed_out:
+            if timed_out and many:
+                local["incs"].append(dict(t="inc", family=self.family, k=k, op=op,
+                                          why="watchdog expired (not re-run: 3 hangs already reproduced in this family)"))
+                with self.lock:
+                    self.unknown_deaths += 1
+            elif timed_out:
                 # re-run the single case under its own budget
+                self.tls.cpu = 0.0
                 rc2, to2 = self._invoke(["--family", self.family, "--seed", str(self.seed), "--tier", self.tier,
                                          "--case", str(k)], err + ".re", self.base)
-                if to2 and self.hang_kinds:
+                cpu2 = getattr(self.tls, "cpu", 0.0)
+                # a hang is a violation when the case, run alone, is still busy (>= a quarter of its budget in CPU time, so
+                # machine load cannot be the reason) when the budget ends; a blocked case (no CPU) only where the
+                # property says that termination is part of it (hang_is_violation)
+                if to2 and (self.hang_kinds or cpu2 >= 0.25 * self.base):
+                    with self.lock:
+                        self.hangs += 1
                     local["viols"].append(dict(t="viol", family=self.family, k=k, op=op or self.family, kind="hang",
-                                               tags=tags, detail=dict(budget_s=self.base, reproduced=True)))
+                                               tags=tags, detail=dict(budget_s=self.base, reproduced=True,
+                                                                      cpu_seconds_when_killed=round(cpu2, 1))))
+                    self._note_death(local["viols"][-1])
                 else:
                     local["incs"].append(dict(t="inc", family=self.family, k=k, op=op,
-                                              why="watchdog expired (reproduced=%s)" % to2))
+                                              why="watchdog expired (reproduced=%s, cpu=%.0fs)" % (to2, cpu2)))
             else:
                 kind = classify_stderr(errtext, rc)
                 reproduced = None
@@ -168,6 +247,7 @@ class FamilyRun:
                 local["viols"].append(dict(t="viol", family=self.family, k=k, op=op or self.family, kind=kind, tags=tags,
                                            detail=dict(stderr=tail(errtext), rc=rc, stack=stack_key(errtext),
                                                        reproduced=reproduced)))
+                self._note_death(local["viols"][-1])
             cur = k + 1
         # collect records
         if os.path.exists(out):
